@@ -11,7 +11,7 @@ txt="## 7. Which checks catch which seeded changes\n\nIndependently written chan
 for r in rows:
     txt+="| %s | %s | %s | %s |\n" % (r[0], r[2], r[3], r[4])
 n=len(rows); miss=sum(1 for r in rows if r[4]!='caught')
-txt+="\nFour rounds (meta.json `round`; round 1 = ids -1, -2): round 1 against the pinned tree plus the first fixes; round 2 against the tree after 22 fixes, with the instruction to prefer rarely exercised paths (collections, 3D, degenerate positions, subclasses, shared helpers); round 3 against the tree after 30 fixes, asking for unusual argument forms, rarely taken branches, call sequences / stored state and index arithmetic; round 4 against the tree after 32 fixes, asking for result classes, complex / integer dtypes, tolerance parameters, cooperating edits, error paths and copy/view semantics.  Rounds 2-4 also produced about 45 near-duplicates of earlier changes, which were not evaluated again, and several remarks about the CLEAN tree that turned out to be genuine defects (section 6).\n"
+txt+="\nFive rounds (meta.json `round`; round 1 = ids -1, -2): round 1 against the pinned tree plus the first fixes; round 2 against the tree after 22 fixes, with the instruction to prefer rarely exercised paths (collections, 3D, degenerate positions, subclasses, shared helpers); round 3 against the tree after 30 fixes, asking for unusual argument forms, rarely taken branches, call sequences / stored state and index arithmetic; round 4 against the tree after 32 fixes, asking for result classes, complex / integer dtypes, tolerance parameters, cooperating edits, error paths and copy/view semantics; round 5 against the tree after 34 fixes with the ORIGINAL unguided prompt, as a final measurement: of its 40 changes 24 repeated earlier ones (caught), 12 of the 16 new ones were caught by the checks as they stood and 4 were missed (90% / 75%).  Rounds 2-5 produced about 70 near-duplicates of earlier changes, which were not evaluated again, and several remarks about the CLEAN tree that turned out to be genuine defects (section 6).\n"
 txt+="\n%d seeded changes; %d were caught by the checks as they stood, %d were missed at first and led to the strengthening named in the row (every one is caught now).\nThe misses had four causes: (1) functions behind SVD/QR/transcendental leaves had no contract at all -> bounded lattice stand-ins were added; (2) effects outside the idealised arithmetic (tolerances, dtype truncation, magnitudes beyond 2^52) -> bounded numeric stand-ins; (3) case sets that did not enumerate a collection/single mix, a collection SHAPE, a tier (3D case only in the thorough tier), an operation sequence (caches, state computed before a transformation) or a non-default homogeneous representative -> cases added; (4) a precondition copied from the code instead of the property (is_collinear with coincident first points) -> contract rewritten.  The miss rate did not fall from round to round because each round was pointed at a class of behaviour the previous checks did not model (collection shapes, call sequences, dtypes and tolerances); what fell is the number of such classes left.\n" % (n, n-miss, miss)
 s=open('/verif/DESIGN.md').read()
 i=s.index('## 7. Which checks catch which seeded changes')
